@@ -442,8 +442,13 @@ func (n *node) AddChildren(ch ...Node) {
 }
 
 func (n *node) AddWhenChildren(fromAugment bool, ch ...Node) {
-	for _, child := range ch {
-		child.(*node).fromAugment = fromAugment
+	// A when of an augment stays one when it is handed on by a uses
+	// written in that augment (the statement is shared by every node it
+	// is handed to).
+	if fromAugment {
+		for _, child := range ch {
+			child.(*node).fromAugment = true
+		}
 	}
 	n.children = append(n.children, ch...)
 }
